@@ -170,17 +170,31 @@ func cmdM3(args []string) error {
 				// C10: with every server up again, a quorum call that needs all
 				// three nodes must succeed (handlers answer at once)
 				atomic.StoreInt32(&probing, 1)
-				from := tr.Len()
-				tok := r.FreeCall("QC", 3, 3, false, "none", 0)
+				// (the first attempts may still meet a reconnect in progress; C10 speaks of
+				// "subsequent calls", so a few attempts are made)
 				tag := "none"
-				for _, e := range tr.Events(from) {
-					if e.Ev == "StubRet" && e.Tok == tok {
-						tag, _ = e.F["tag"].(string)
+				var tok uint64
+				attempts := 0
+				for ; attempts < 10 && tag != "ok"; attempts++ {
+					if attempts > 0 {
+						time.Sleep(50 * time.Millisecond)
+					}
+					from := tr.Len()
+					tok = r.FreeCall("QC", 3, 3, false, "none", 0)
+					if tok == 0 {
+						break
+					}
+					mu.Lock()
+					toks = append(toks, tok)
+					mu.Unlock()
+					for _, e := range tr.Events(from) {
+						if e.Ev == "StubRet" && e.Tok == tok {
+							tag, _ = e.F["tag"].(string)
+						}
 					}
 				}
 				if tok != 0 {
-					toks = append(toks, tok)
-					tr.Emit("Probe", 0, tok, "ok", tag == "ok", "tag", tag)
+					tr.Emit("Probe", 0, tok, "ok", tag == "ok", "tag", tag, "attempts", attempts)
 				}
 			}
 			r.Settle(toks)
@@ -188,11 +202,11 @@ func cmdM3(args []string) error {
 		hung := false
 		select {
 		case <-finished:
-		case <-time.After(90 * time.Second):
+		case <-time.After(300 * time.Second):
 			// the library is wedged in a way that blocks the harness itself (a
 			// server that cannot stop, ...): record it and give up
 			hung = true
-			tr.Emit("Quiescent", 0, 0, "why", "the run did not finish within 90 s")
+			tr.Emit("Quiescent", 0, 0, "why", "the run did not finish within 300 s")
 		}
 		tr.Stop()
 		w.WriteRaw(map[string]interface{}{"ev": "Prog", "t": run, "tok": 0, "node": 0, "msg": 0, "sendbuf": sendbuf,
